@@ -1311,3 +1311,161 @@ def C03(tier, seed):
                   'parallel_for as ordered chunk execution, concurrent_vector::push_back in task execution order'],
     }
     return finish(prop, tier, seed, 'model_checking', agg, out, bounds, ASSUME_A, t0, nvalid)
+
+
+# ----------------------------------------------------------------------------- C04 (MPI entry points under the SPMD simulator)
+def run_real_mpi(rbin, rec, weights, P, layout, timeout=120):
+    arg = 'algo=%s+n=%s+edges=%s+weights=%s+layout=%s' % (rec['algo'], rec['n'], rec['edges'], ','.join(map(str, weights)), layout)
+    try:
+        r = subprocess.run(['mpiexec', '--allow-run-as-root', '--oversubscribe', '-n', str(P), rbin, arg], stdout=subprocess.PIPE,
+                           stderr=subprocess.PIPE, text=True, timeout=timeout)
+    except subprocess.TimeoutExpired:
+        return {'timeout': True}
+    except FileNotFoundError:
+        return {'unavailable': True}
+    out = [l for l in r.stdout.splitlines() if l.startswith('{')]
+    if r.returncode != 0 or not out:
+        return {'unavailable': True, 'exit': r.returncode, 'stderr': r.stderr[-400:]}
+    return json.loads(out[-1])
+
+
+def mpi_cases(tier, seed):
+    cases = []
+    algos = ['signed_mpi', 'fvs_mpi', 'fvs_tbb_mpi', 'iso_mpi', 'iso_tbb_mpi']
+    Ps = [1, 2, 3] if tier == 'quick' else [1, 2, 3, 4, 5]
+    graphs = [(4, g) for g in (iso_classes(4) if tier == 'quick' else all_labelled_graphs(4)) if dim(4, g) >= 1]
+    graphs += [(3, [(0, 1), (0, 2), (1, 2)]), (4, [(0, 1), (1, 2), (2, 3)]), (4, []), (0, [])]
+    r = rng(seed)
+    for n, g in graphs:
+        m = len(g)
+        for algo in algos:
+            lim = (4 if tier == 'quick' else 5) - (1 if 'iso' in algo else 0)
+            s = 'all' if m <= lim else ','.join(map(str, sorted(r.sample(range(m), 3 if 'iso' not in algo else 2))))
+            for P in Ps:
+                layouts = ['same'] if P == 1 else (['same', 'rev'] + (['sym'] if (m <= 3 or (P == 2 and m <= 5 and algo == 'signed_mpi')) else []))
+                if tier == 'thorough' and P >= 2 and m >= 4 and algo == 'signed_mpi':
+                    layouts = ['same', 'rev', 'sym']
+                for lay in layouts:
+                    cases.append('algo=%s P=%d layout=%s n=%d edges=%s sym=%s seed=%d' % (algo, P, lay, n, edges_str(g), s, seed))
+    if tier == 'thorough':
+        for f, ns in [('K33', 2), ('K5', 2)]:
+            for algo in algos:
+                for P in (2, 3, 5):
+                    cases += slice_cases(algo, f, ns, seed, variants=1, extra=' P=%d layout=rev seed=%d' % (P, seed))
+    return cases
+
+
+def C04(tier, seed):
+    prop = 'C04'
+    t0 = time.time()
+    h, r_mcb, r_mpi = build_many([('harness/h_mpi.cpp', 'symx_mpi'), ('replay/r_mcb.cpp', 'real'), ('replay/r_mpi.cpp', 'real_mpi')])
+    cases = mpi_cases(tier, seed)
+    agg = Agg([prop + ':'])
+    out = Outcome(prop)
+    wcases = [c for c in cases if 'n=4' in c and 'P=2' in c][:8]
+    ws, _ = run_harness(h, wcases, prop + '-witness', timeout=300, witness=True)
+    if ws.get('witness_hits', 0) <= 0:
+        out.fault = 'witness twin was not violated'
+    leaves = []
+    layouts_seen = set()
+    stats = {'not_achieved': 0, 'collectives': 0}
+
+    def keep(rec):
+        if 'layouts' in rec:
+            layouts_seen.add((rec['P'], rec['layouts']))
+            stats['not_achieved'] += int(rec.get('layout_not_achieved', 0))
+            stats['collectives'] += int(rec.get('collectives', 0))
+        if 'ret' in rec and (rec['path'] % 5 == 0 or rec['depth'] == 0) and len(leaves) < 60000:
+            leaves.append(rec)
+    s, log = run_harness(h, cases, prop + '-' + tier, timeout=1200 if tier == 'quick' else 3400, max_paths=4000000)
+    agg.add_summary(s)
+    agg.witness_hits = ws.get('witness_hits', 0)
+    agg.add_log(log, keep)
+    if agg.leaves == 0 or not agg.obl:
+        out.fault = 'no leaf reached an obligation of C04'
+    nvalid = 0
+    real_mpi = {'runs': 0, 'available': True}
+    seqmap = {'signed_mpi': 'signed', 'fvs_mpi': 'fvs', 'fvs_tbb_mpi': 'fvs', 'iso_mpi': 'iso', 'iso_tbb_mpi': 'iso'}
+    if not out.fault:
+        r = rng(seed)
+        r.shuffle(leaves)
+        lines, meta = [], []
+        for rec in leaves[:(48 if tier == 'quick' else 1500)]:
+            weights, den = instance_weights(rec, rec['model'])
+            if max(weights + [0]) > 2 ** 40:
+                continue
+            lines.append(replay_line(rec, weights, 'double', algo=seqmap[rec['algo']]))
+            meta.append((rec, den, weights))
+        for (rec, den, weights), o in zip(meta, run_replayer_batch(r_mcb, lines)):
+            if o.get('crashed') or o['N'] != int(rec['N']) or fractions.Fraction(o['ret']) != parse_q(rec['ret']) * den:
+                out.fault = 'translation validation: sequential real build disagrees with simulated rank 0 on %s model %s: %s' % (rec['case'], rec['model'], json.dumps(o)[:300])
+                break
+            nvalid += 1
+        # the same inputs on the REAL boost::mpi runtime (mpiexec), a handful per run
+        for rec, den, weights in meta[:(6 if tier == 'quick' else 40)]:
+            if out.fault:
+                break
+            o = run_real_mpi(r_mpi, rec, weights, int(rec['P']), 'rev' if rec['layout'] != 'same' else 'same')
+            if o.get('unavailable'):
+                real_mpi['available'] = False
+                real_mpi['why'] = o
+                break
+            real_mpi['runs'] += 1
+            if o.get('timeout') or o['N'] != o['dim'] or not o['all_simple'] or o['rank'] != o['N'] or o['ret'] != o['sum'] or o['sum'] != o['opt'] or o['others_emitted']:
+                out.fault = 'real boost::mpi run violates C04 where the symbolic leaf did not: %s weights %s -> %s' % (rec['case'], weights, o)
+    if not out.fault and (agg.violated or agg.crashes):
+        items = agg.violated[:12]
+        if agg.crashes and not items:
+            out.fault = 'crash in MPI harness: %s' % json.dumps(agg.crashes[0])[:300]
+        for idx, (rec, obl) in enumerate(items):
+            weights, _ = instance_weights(rec, obl.get('model') or rec['model'])
+            P = int(rec['P'])
+            confirmed = None
+            # 1. real boost::mpi with descending addresses on ranks != 0
+            for lay in ('rev', 'same'):
+                o = run_real_mpi(r_mpi, rec, weights, P, lay)
+                if o.get('unavailable'):
+                    break
+                if o.get('timeout') or o['N'] != o['dim'] or not o['all_simple'] or o['rank'] != o['N'] or o['ret'] != o['sum'] or o['sum'] != o['opt'] or o['others_emitted']:
+                    confirmed = ('replay/r_mpi.cpp under mpiexec -n %d layout=%s' % (P, lay), o)
+                    break
+            if confirmed is None:
+                # 2. the same simulator with concrete weights and the recorded layout choice (stated in the replay file)
+                redo = ['algo=%s P=%s layout=%s n=%s edges=%s sym=none fixed=%s seed=%d' % (rec['algo'], P, rec['layout'], rec['n'], rec['edges'], ','.join(map(str, weights)), seed)]
+                s2, log2 = run_harness(h, redo, prop + '-confirm', timeout=300)
+                a2 = Agg([prop + ':'])
+                a2.add_log(log2)
+                if a2.violated:
+                    confirmed = ('harness/h_mpi.cpp under the SPMD simulator with concrete weights (layout-dependent; layouts %s)' % a2.violated[0][0].get('layouts'), {'case': redo[0]})
+            if confirmed is None:
+                out.fault = 'C04 counterexample did not reproduce (real MPI nor simulator with concrete weights): %s weights %s' % (rec['case'], weights)
+                break
+            rp = os.path.join(cex_dir(), 'C04-replay-%d.json' % idx)
+            json.dump({'property': prop, 'replayer': confirmed[0], 'observed': confirmed[1], 'case': rec['case'], 'weights': weights, 'layouts': rec.get('layouts'),
+                       'obligation': obl['name']}, open(rp, 'w'), indent=1)
+            key = '%s/P=%s/%s' % (rec['algo'], rec['P'], rec['edges'])
+            kf = finding_matches(prop, key)
+            if kf:
+                out.n_known += 1
+                msg = 'KNOWN-FINDING: property=C04 %s' % kf['text']
+                if msg not in out.known_lines:
+                    out.known_lines.append(msg)
+            else:
+                out.n_confirmed += 1
+                out.violation_lines.append('VIOLATION property=C04 replay=%s' % rp)
+    bounds = {
+        'functions_encoded': ['parmcb::mcb_sva_signed_mpi (find_shortest_odd_cycle_mpi)', 'mcb_sva_fvs_trees_mpi', 'mcb_sva_fvs_trees_tbb_mpi',
+                              'mcb_sva_iso_trees_mpi', 'mcb_sva_iso_trees_tbb_mpi (_mcb_sva_trees_mpi)', 'SerializableMinOddCycleMinOp'],
+        'bounds': 'ranks P in %s as coroutines of one process; weights symbolic; each rank has its own graph copy whose edge address order is the same, '
+                  'reversed or a symbolic choice among permutations (all m! for m<=4); fold order of commutative reduces symbolic for the first two '
+                  'reduces of a path; graphs: 4-vertex graphs with a cycle (quick: one per isomorphism class, m<=4 fully symbolic), small forests, empty graph'
+                  % ([1, 2, 3] if tier == 'quick' else [1, 2, 3, 4, 5]),
+        'ranks': [1, 2, 3] if tier == 'quick' else [1, 2, 3, 4, 5],
+        'layouts': len(layouts_seen), 'layout_requests_not_exactly_achieved': stats['not_achieved'], 'collectives_completed': stats['collectives'],
+        'real_boost_mpi_replays': real_mpi,
+        'outside_bounds': 'serialize() members (objects are passed by value in the simulator; exercised only by the real-MPI replays); behaviour of a '
+                          'particular MPI runtime; more ranks or graphs than listed',
+        'stubs': ['shim/mpi/boost/mpi/mpisim.hpp: communicator, broadcast, reduce, scatter, timer, environment; collectives rendezvous all ranks at the same '
+                  '(sequence number, kind, root), otherwise deadlock is reported', 'shim/tbb scheduler shim in its default schedule'],
+    }
+    return finish(prop, tier, seed, 'model_checking', agg, out, bounds, ASSUME_A, t0, nvalid)
